@@ -111,7 +111,9 @@ pub fn trace_process(seed: u64, n: usize) -> Vec<J> {
             "SELECT * FROM connections WHERE hostname IS NOT NULL LIMIT 20",
             "SELECT hostname, COUNT(*) AS count, MAX(day) AS last_day, MIN(ip) AS ip FROM connections GROUP BY hostname",
             "SELECT hostname, hour, COUNT(*) AS count, COUNT(DISTINCT ip) AS ips FROM connections GROUP BY hostname, hour HAVING COUNT(*) > 2",
-            "SELECT DISTINCT ip, day FROM connections"]),
+            "SELECT DISTINCT ip, day FROM connections",
+            "SELECT DISTINCT COUNT(*) AS n FROM connections GROUP BY hostname",
+            "SELECT DISTINCT COUNT(*) AS n, MAX(day) AS d FROM connections GROUP BY ip HAVING COUNT(*) > 1 LIMIT 5"]),
         ("/repo/testdata/dummy.txt", "/repo/testdata/dummy1_data.txt", vec![
             "SELECT * FROM dummy1 INNER JOIN dummy2::'/repo/testdata/dummy2_data.txt' ON dummy1.hostname=dummy2.hostname",
             "SELECT hostname, COUNT(*) AS n FROM dummy1 OUTER JOIN dummy2::'/repo/testdata/dummy2_data.txt' ON dummy1.hostname=dummy2.hostname GROUP BY hostname"]),
